@@ -81,6 +81,10 @@ type FieldSpec struct {
 // ReqSpec says which sources carry a value for which field.
 type ReqSpec struct {
 	Body   string                         `json:"body"`   // "none", "form", "multipart", "json"
+	// CT: how the media type of a json body is spelled ("" = application/json); media types are case-insensitive
+	CT string `json:"content_type,omitempty"`
+	// Streamed: the json body arrives chunked on a server that streams request bodies (the request carries a body stream, no length)
+	Streamed bool `json:"streamed,omitempty"`
 	Values map[string]map[string][]string `json:"values"` // field -> source -> texts
 }
 
@@ -210,6 +214,9 @@ func genFields(t *rapid.T) []FieldSpec {
 				}
 				if s == "header" {
 					key = fmt.Sprintf("X-H-F%d", i)
+					if rapid.IntRange(0, 2).Draw(t, "headerTagLowerCase") == 0 {
+						key = fmt.Sprintf("x-h-f%d", i) // header names are case-insensitive
+					}
 				}
 				if s != "header" && s != "cookie" && rapid.IntRange(0, 7).Draw(t, "emptyTagName") == 0 {
 					key = "" // `query:""` / `query:",required"`: the key falls back to the field name
@@ -288,6 +295,10 @@ func keyFor(f *FieldSpec, src string) (string, bool) {
 
 func genReq(t *rapid.T, fs []FieldSpec, allowInvalid bool) (ReqSpec, bool) {
 	r := ReqSpec{Body: rapid.SampledFrom([]string{"none", "form", "multipart", "json", "json", "form"}).Draw(t, "body"), Values: map[string]map[string][]string{}}
+	if r.Body == "json" {
+		r.CT = rapid.SampledFrom([]string{"", "", "", "Application/JSON", "application/json; charset=utf-8", "application/JSON;charset=UTF-8"}).Draw(t, "contentTypeSpelling")
+		r.Streamed = rapid.IntRange(0, 3).Draw(t, "streamedBody") == 0
+	}
 	invalid := false
 	for i := range fs {
 		f := &fs[i]
@@ -394,6 +405,9 @@ func encode(fs []FieldSpec, r ReqSpec) ([]byte, param.Params) {
 		body, ct = strings.Join(form, "&"), "application/x-www-form-urlencoded"
 	case "json":
 		body, ct = "{"+strings.Join(jsonParts, ",")+"}", "application/json"
+		if r.CT != "" {
+			ct = r.CT
+		}
 	case "multipart":
 		ct = "multipart/form-data; boundary=BOUND"
 		for _, p := range mparts {
@@ -410,7 +424,9 @@ func encode(fs []FieldSpec, r ReqSpec) ([]byte, param.Params) {
 	if len(cookies) > 0 {
 		sb.WriteString("Cookie: " + strings.Join(cookies, "; ") + "\r\n")
 	}
-	if r.Body != "none" {
+	if r.Body == "json" && r.Streamed {
+		fmt.Fprintf(&sb, "Content-Type: %s\r\nTransfer-Encoding: chunked\r\n\r\n%x\r\n%s\r\n0\r\n\r\n", ct, len(body), body)
+	} else if r.Body != "none" {
 		fmt.Fprintf(&sb, "Content-Type: %s\r\nContent-Length: %d\r\n\r\n%s", ct, len(body), body)
 	} else {
 		sb.WriteString("Content-Length: 0\r\n\r\n")
@@ -488,7 +504,15 @@ func reference(c *genCase) (reflect.Value, bool) {
 
 func bindOnce(c *genCase, wire []byte, params param.Params, validate bool) (reflect.Value, error, string) {
 	var r protocol.Request
-	if err := req.Read(&r, mock.NewZeroCopyReader(string(wire))); err != nil {
+	if c.Req.Body == "json" && c.Req.Streamed {
+		zr := mock.NewZeroCopyReader(string(wire))
+		if err := req.ReadHeader(&r.Header, zr); err != nil {
+			return reflect.Value{}, nil, "harness: request header does not parse: " + err.Error()
+		}
+		if err := req.ReadBodyStream(&r, zr, 0, false, false); err != nil {
+			return reflect.Value{}, nil, "harness: request body stream: " + err.Error()
+		}
+	} else if err := req.Read(&r, mock.NewZeroCopyReader(string(wire))); err != nil {
 		return reflect.Value{}, nil, "harness: request does not parse: " + err.Error()
 	}
 	obj := reflect.New(c.typ)
